@@ -166,6 +166,8 @@ def host_model_inputs(res: Dict[str, Any]):
             seen.add(i)
             r = rows[i]
             tab.append([i, r["ts"], r["ts"] + r["dur"], i in start_node, block.get(i, False), par])
+        if not any(row[3] for row in tab):
+            continue            # a pseudo-thread without any event that has graph nodes (e.g. the Context Sync records of a device): it yields no edge
         threads.append((tab, [[a[0], a[1]] for a in acts]))
     attrib = {(u, v): ev for u, v, ev in g["attrib"]}
     ty = {"OPERATOR_KERNEL": 0, "DEPENDENCY": 1, "KERNEL_LAUNCH_DELAY": 2, "KERNEL_KERNEL_DELAY": 3, "SYNC_DEPENDENCY": 4}
@@ -187,8 +189,8 @@ def queue_lengths(ta, rank) -> Dict[int, int]:
 
 
 def dev_model_inputs(res: Dict[str, Any]):
-    """rows for coq/model/C08_Dev.v in the order of the builder's sort (activities by start, sync records by end, ties by end, then by
-    position), and the implementation's edges that touch the device side, in the model's encoding"""
+    """rows for coq/model/C08_Dev.v in the order of the builder's sort (activities by start, sync records by end, ties by end, then by the start
+    of the launching / synchronising host call, then by position), and the implementation's edges that touch the device side, in the model's encoding"""
     rows = {r["idx"]: r for r in res["rows"]}
     g = res["graph"]
     has_nodes = {x[1] for x in g["nodes"]}
@@ -208,12 +210,12 @@ def dev_model_inputs(res: Dict[str, Any]):
                 lit = ("DC", rt, rt_end, rt in has_nodes)
             else:
                 lit = ("DE",)
-            sel.append(((end, end, i), lit))
+            sel.append(((end, end, rows[rt]["ts"] if rt in rows else -1, i), lit))
         else:
             rt = r["icorr"]
             rt_ts = rows[rt]["ts"] if rt in rows else 0
             lit = ("DK", i, r["stream"], r["ts"], end, rt, rt_ts, rt in has_nodes, q.get(rt, -1), q.get(i, -1))
-            sel.append(((r["ts"], end, i), lit))
+            sel.append(((r["ts"], end, rows[rt]["ts"] if rt in rows else -1, i), lit))
     sel.sort(key=lambda x: x[0])
     node = {x[0]: x for x in g["nodes"]}
     attrib = {(u, v): ev for u, v, ev in g["attrib"]}
